@@ -166,6 +166,10 @@ class World:
         if is_select:
             c.selected = False
             c.entries = []
+        silent_targets = None
+        if type(cmd) in (g['StoreCommand'], g['UidStoreCommand']) and getattr(cmd, 'silent', False):
+            # what the client addresses is decided by what it knows when it sends the command
+            silent_targets = self._silent_targets(c, cmd)
         for r in getattr(resp, '_untagged', []):
             if isinstance(r, g['ExpungeResponse']):
                 if hide_forbidden:
@@ -203,12 +207,65 @@ class World:
                         fl = self._fetch_flags(val)
                         if fl is not None:
                             ent['flags'] = fl
+        if silent_targets is not None and isinstance(resp, g['ResponseOk']):
+            # .SILENT: the server does not echo the client's own change, the client takes it as done
+            self._own_silent_store(c, cmd, silent_targets)
         if is_select and isinstance(resp, g['ResponseOk']):
             c.selected = True
             c.readonly = bool(cmd.readonly)
         if isinstance(cmd, g['CloseCommand']) and isinstance(resp, g['ResponseOk']):
             c.selected = False
             c.entries = []
+
+    def _silent_targets(self, c, cmd):
+        g = self.g
+        uid_cmd = isinstance(cmd, g['UidStoreCommand'])
+        mx = g['SequenceSet']._max
+        n = len(c.entries)
+
+        def addressed(x, top):
+            for el in cmd.sequence_set.value:
+                lo, hi = el if isinstance(el, tuple) else (el, el)
+                lo = top if lo == mx else lo
+                hi = top if hi == mx else hi
+                if top is None and (lo is None or hi is None):
+                    continue
+                if bool(lo <= hi):
+                    if bool(lo <= x) and bool(x <= hi):
+                        return True
+                elif bool(hi <= x) and bool(x <= lo):
+                    return True
+            return False
+        top_uid = None
+        for ent in c.entries:
+            if ent['uid'] is not None:
+                top_uid = ent['uid']
+        out = []
+        for i, ent in enumerate(c.entries, 1):
+            if uid_cmd:
+                if ent['uid'] is None or not addressed(ent['uid'], top_uid):
+                    continue
+            elif not addressed(i, n):
+                continue
+            out.append(ent)
+        return out
+
+    def _own_silent_store(self, c, cmd, targets):
+        g = self.g
+        permitted = (g['Seen'], g['Deleted'], g['Flagged'], g['Answered'], g['Draft'])
+        flags = frozenset(f for f in cmd.flag_set if f in permitted)
+        for ent in c.entries:
+            if ent['flags'] is None or not any(ent is t for t in targets):
+                continue
+            keep = frozenset(f for f in ent['flags'] if f not in permitted)
+            cur = frozenset(f for f in ent['flags'] if f in permitted)
+            if cmd.mode == g['FlagOp'].ADD:
+                cur = cur | flags
+            elif cmd.mode == g['FlagOp'].DELETE:
+                cur = cur - flags
+            else:
+                cur = flags
+            ent['flags'] = keep | cur
 
     def _fetch_uid(self, val):
         v = getattr(val, '_value', None)
